@@ -124,7 +124,10 @@ def rotation(draw, classes=('generic', 'perm', 'flip', 'small', 'identity',
         m = np.eye(3)
         m[i, i], m[i, j], m[j, i], m[j, j] = c, -s, s, c
     elif cls == 'small':
-        ang = draw(st.sampled_from([1e-5, 1e-4, 1e-3, 1e-2, 0.05, 0.1]))
+        # (below ~1e-4 the tilt only matters to branch thresholds of the
+        # converter; from 1e-3 up a wrong frame is visible to point sampling)
+        ang = draw(st.sampled_from([1e-5, 1e-4, 1e-3, 3e-3, 1e-2, 0.02, 0.04,
+                                    0.05, 0.1]))
         axis = np.array(draw(unit_vector()))
         q = np.concatenate([[math.cos(ang / 2)], math.sin(ang / 2) * axis])
         m = _quat_to_mat(q)
@@ -338,7 +341,11 @@ MACROS = ['box', 'rpp', 'sph', 'rcc', 'rhp9', 'rhp15', 'rec10', 'rec12',
 
 def _frame(draw):
     """A right- or left-handed orthonormal frame (rows)."""
-    cls, R = draw(rotation())
+    # bodies slightly tilted from the coordinate axes are drawn twice as
+    # often as the other orientation classes: the converter has branches for
+    # "almost aligned" axes (ELL, cones, cylinders)
+    cls, R = draw(rotation(('generic', 'perm', 'flip', 'small', 'small',
+                            'identity', 'axis')))
     R = np.array(R).reshape(3, 3)
     hand = draw(st.sampled_from([1, 1, -1]))
     if hand < 0:
